@@ -747,12 +747,7 @@ Theorem C09X_combine_find_link : forall D K stranded (g1 g2 : graph D),
   (find_link D K stranded (g1 ++ g2) k d = Some (y, t, f) ->
      ((y < length g1)%nat /\ find_link D K stranded g1 k d = Some (y, t, f)) \/
      ((length g1 <= y)%nat /\ find_link D K stranded g2 k d = Some ((y - length g1)%nat, t, f))).
-Proof.
-  intros D K stranded g1 g2 H1 H2 H3 k d y t f. split; [|split].
-  - exact (RecompLooseCombine.find_link_app_l D K stranded g1 g2 H1 H2 H3 k d y t f).
-  - exact (RecompLooseCombine.find_link_app_r D K stranded g1 g2 H1 H2 H3 k d y t f).
-  - exact (RecompLooseCombine.find_link_app_inv D K stranded g1 g2 H1 H2 H3 k d y t f).
-Qed.
+Proof. exact RecompLooseCombine.find_link_app. Qed.
 Print Assumptions C09X_combine_find_link.
 
 Theorem C09X_combine_within : forall D K stranded (gs : list (graph D)),
